@@ -61,6 +61,16 @@ def imp_deck(g):
         deck['impcards'].append({'par': 'n', 'tokens': spell(g['tokN'])})
     if g['mode'] == 'data2':
         deck['impcards'].append({'par': 'p', 'tokens': spell(g['tokP'])})
+    # a mix: every third data-card deck gives some cells an IMP keyword of their own, which then decides for that
+    # cell (zero on the card where the data card says non-zero, and the other way round)
+    if g['mode'] in ('data1', 'data2') and style == 0 and len(cells) >= 2:
+        for k, cell in enumerate(cells):
+            if (k + g['ncell']) % 2 == 0:
+                new = 0 if cell['imp'] else 2
+                cell['impsrc'] = 'cellmulti'
+                cell['imptxt'] = 'imp:n=%d' % new if g['mode'] == 'data1' else 'imp:n=%d imp:p=%d' % (new, 0)
+                cell['imp'] = new
+        deck['mixed'] = True
     deck['feat'] = {'mode': g['mode'], 'withu': g['withu'],
                     'shorthand': any(t[0] != 'v' for t in g['tokN'] + g['tokP'])}
     return deck
